@@ -375,12 +375,19 @@ def on_yield(I, n, env, globs):
 
 
 def make_super(I, n, env):
-    clo = getattr(env, "_closure", None)
+    from .interp import SuperObj
+    globs = None
     e = env
-    while clo is None and e is not None:
+    clo = None
+    while e is not None and clo is None:
         clo = getattr(e, "_closure", None)
         e = e.parent
-    raise Undecided("super()")
+    if len(n.args) == 2:
+        cls = I.eval(n.args[0], env, clo.globs if clo else {})
+        obj = I.eval(n.args[1], env, clo.globs if clo else {})
+        if isinstance(obj, SObj) and isinstance(cls, type):
+            return SuperObj(cls, obj)
+    raise Undecided("super() without explicit (class, instance) arguments")
 
 
 # ------------------------------------------------------------------ strings: format / to_str
